@@ -145,6 +145,7 @@ def obligations(tier):
         obs.append(Ob(f"twice_{area}{suffix}", "E1", "h_twice", {"area": area, "fix": fix}, 1500, f"grammar area {area}{suffix}: pristine-first-use create == create == create on the description mutated by the previous run", weight=150))
     obs += [
         Ob("sign_determinism", "E1", "h_sign_det", {}, 600, "single-level sign x 5 algorithms, key id < 2^32: same KMS output -> identical bytes; independent KMS output -> differs only in the signature field; to-be-signed bytes identical", weight=40),
+        Ob("signer_object_history", "E1", "h_signer_history", {}, 900, "ONE Signer object used twice: first call on a signed or unsigned envelope with any already-signed action (solver-chosen; may refuse), second call on an unsigned envelope - the second result equals what a fresh Signer returns for it (no state carried between calls); 5 algorithms", weight=60),
         Ob("encrypt_determinism", "E1", "h_encrypt_det", {}, 600, "encrypt-and-generate three times (same object twice, fresh object): digest, size, AAD, key identical; info differs only in the IV; content is the AEAD output", weight=40),
         Ob("mpi_generate", "E1", "h_mpi", {}, 600, "MPI generate twice + frame: 2 x 2 policies x 4 signature policies, 2 vendor x 2 class names (uuid5 as congruent tokens), 3 sizes, address < 2^32 symbolic", weight=30),
         Ob("cache_partition", "E1", "h_cache", {}, 600, "two CachePartition objects filled with the same (uri, payload) pairs, frame between them: identical bytes; payload sizes and erase-block size from representative sets, payload bytes symbolic, URIs from {a, file://fw.bin} x {a, b} (duplicate URI refused both times)", weight=30),
@@ -281,6 +282,58 @@ def h_sign_det(exclude=()):
                 sa, sb = cbormodel.plain_loads(wa[1]), cbormodel.plain_loads(wb[1])
                 ok = sa.tag == 18 and sb.tag == 18 and list(sa.value[:3]) == list(sb.value[:3]) and sa.value[3] == sig_a and sb.value[3] == sig_b
         return chx.conclude(ok, key_id=kid, alg=ai)
+
+    return harness
+
+
+def h_signer_history(exclude=()):
+    from props import c04, c09
+    from props.c04 import ALGS
+
+    SS, CS, stubs = c09._env()
+    from suit_generator.suit_sign_script_base import SignatureAlreadyPresentActions, SuitSignAlgorithms
+
+    from vlib import cbormodel, chx, refenc
+    from vlib.cbormodel import CBORTag
+
+    ACTIONS = [SignatureAlreadyPresentActions.ERROR, SignatureAlreadyPresentActions.SKIP, SignatureAlreadyPresentActions.REMOVE_OLD]
+
+    def harness():
+        cbormodel.reset()
+        stubs.KMSRecorder.reset()
+        kid = chx.sym_int("key_id", 0, 23)
+        alg_member = chx.pick("alg", [a[0] for a in ALGS])
+        act1 = chx.pick("first_action", [0, 1, 2])
+        first_signed = chx.sym_bool("first_input_signed")
+        sig1, sig2, sig_old = chx.sym_bytes("sig1_", 4), chx.sym_bytes("sig2_", 4), chx.sym_bytes("sigold_", 4)
+        d1, d2 = chx.sym_bytes("digest1_", 3), chx.sym_bytes("digest2_", 3)
+        db1, db2 = cbormodel.plain_dumps([-16, d1]), cbormodel.plain_dumps([-16, d2])
+        old_block, _ = c09._block(cbormodel, refenc, -8, 5, sig_old)
+        env1 = CBORTag(107, {2: cbormodel.plain_dumps([db1, old_block] if first_signed else [db1]), 3: chx.sym_bytes("man1_", 2)})
+        man2 = chx.sym_bytes("man2_", 2)
+
+        def env2():
+            return cbormodel.loads(cbormodel.dumps(CBORTag(107, {2: cbormodel.plain_dumps([db2]), 3: man2})))
+
+        signer = SS.Signer()
+        stubs.KMSRecorder.SIGNATURES = [sig1, sig1]
+        try:
+            signer.sign_envelope(cbormodel.loads(cbormodel.dumps(env1)), "kn", kid, SuitSignAlgorithms[alg_member], None, c04.KMS_SCRIPT(), ACTIONS[act1])
+        except Exception:
+            pass
+        stubs.KMSRecorder.reset()
+        stubs.KMSRecorder.SIGNATURES = [sig2]
+        again = signer.sign_envelope(env2(), "kn", kid, SuitSignAlgorithms[alg_member], None, c04.KMS_SCRIPT(), SignatureAlreadyPresentActions.ERROR)
+        log_again = [x for x in stubs.KMSRecorder.LOG if x[0] == "sign"]
+        stubs.KMSRecorder.reset()
+        stubs.KMSRecorder.SIGNATURES = [sig2]
+        fresh = SS.Signer().sign_envelope(env2(), "kn", kid, SuitSignAlgorithms[alg_member], None, c04.KMS_SCRIPT(), SignatureAlreadyPresentActions.ERROR)
+        log_fresh = [x for x in stubs.KMSRecorder.LOG if x[0] == "sign"]
+        ok = cbormodel.dumps(again) == cbormodel.dumps(fresh) and len(log_again) == 1 and len(log_fresh) == 1 and log_again[0][1:4] == log_fresh[0][1:4]
+        # and the fresh result is a signed envelope (one block appended): guards against both being equally wrong
+        w = cbormodel.plain_loads(dict(cbormodel.plain_loads(cbormodel.dumps(fresh)).value.items())[2])
+        ok = ok and len(w) == 2
+        return chx.conclude(ok)
 
     return harness
 
@@ -457,6 +510,8 @@ def replay(obligation, params, cex):
         return _replay_twice(params, cex)
     if obligation == "sign_determinism":
         return _replay_sign(cex)
+    if obligation == "signer_object_history":
+        return _replay_signer_history(cex)
     if obligation == "encrypt_determinism":
         return _replay_encrypt(cex)
     if obligation == "mpi_generate":
@@ -541,6 +596,55 @@ def _replay_sign(cex):
         return dict(reproduced=True, detail=f"signing a well-formed envelope raises {type(ex).__name__}: {ex}"[:400])
     finally:
         shutil.rmtree(d, ignore_errors=True)
+
+
+def _replay_signer_history(cex):
+    """Real ncs/sign_script.py Signer (real cbor2), recording KMS: one object used twice vs a fresh object."""
+    import cbor2
+    from props import c04
+    from props.c04 import ALGS
+
+    import ncs.sign_script as SS
+    from suit_generator.suit_sign_script_base import SignatureAlreadyPresentActions, SuitSignAlgorithms
+    from vlib import stubs
+
+    ACTIONS = [SignatureAlreadyPresentActions.ERROR, SignatureAlreadyPresentActions.SKIP, SignatureAlreadyPresentActions.REMOVE_OLD]
+    alg_member = cex.get("alg", ALGS[0][0])
+    if alg_member not in [a[0] for a in ALGS]:
+        alg_member = ALGS[0][0]
+    kid = cex.get("key_id", 1)
+    act1 = cex.get("first_action", 1)
+    first_signed = bool(cex.get("first_input_signed", True))
+    old_block = cbor2.dumps(cbor2.CBORTag(18, [cbor2.dumps({1: -8, 4: cbor2.dumps(5)}), {}, None, b"OLD!"]))
+    db1, db2 = cbor2.dumps([-16, b"\x01\x02\x03"]), cbor2.dumps([-16, b"\x04\x05\x06"])
+
+    def env1():
+        return {2: cbor2.dumps([db1, old_block] if first_signed else [db1]), 3: b"m1"}
+
+    def env2():
+        return cbor2.CBORTag(107, {2: cbor2.dumps([db2]), 3: b"m2"})
+
+    try:
+        signer = SS.Signer()
+        stubs.KMSRecorder.reset()
+        stubs.KMSRecorder.SIGNATURES = [b"SIG1", b"SIG1"]
+        try:
+            signer.sign_envelope(cbor2.CBORTag(107, env1()), "kn", kid, SuitSignAlgorithms[alg_member], None, c04.KMS_SCRIPT(), ACTIONS[act1 % 3])
+        except Exception:  # noqa
+            pass
+        stubs.KMSRecorder.reset()
+        stubs.KMSRecorder.SIGNATURES = [b"SIG2"]
+        again = cbor2.dumps(signer.sign_envelope(env2(), "kn", kid, SuitSignAlgorithms[alg_member], None, c04.KMS_SCRIPT(), SignatureAlreadyPresentActions.ERROR))
+        stubs.KMSRecorder.reset()
+        stubs.KMSRecorder.SIGNATURES = [b"SIG2"]
+        fresh = cbor2.dumps(SS.Signer().sign_envelope(env2(), "kn", kid, SuitSignAlgorithms[alg_member], None, c04.KMS_SCRIPT(), SignatureAlreadyPresentActions.ERROR))
+    except Exception as ex:  # noqa
+        return dict(reproduced=True, detail=f"signing a well-formed unsigned envelope raises {type(ex).__name__}: {ex}"[:400])
+    if again != fresh:
+        return dict(reproduced=True, detail=f"a Signer that first handled a{' signed' if first_signed else 'n unsigned'} envelope with action {ACTIONS[act1 % 3].name} returns {again.hex()[:160]} for the next unsigned envelope; a fresh Signer returns {fresh.hex()[:160]}")
+    if len(cbor2.loads(cbor2.loads(fresh).value[2])) != 2:
+        return dict(reproduced=True, detail="signing an unsigned envelope does not append exactly one block")
+    return dict(reproduced=False, detail="second use of the object equals first use of a fresh object")
 
 
 def _replay_encrypt(cex):
